@@ -644,7 +644,7 @@ impl Check for C10 {
     }
     fn default_runs(&self, tier: Tier) -> u64 {
         match tier {
-            Tier::Quick => 8000,
+            Tier::Quick => 11000,
             Tier::Thorough => 400000,
         }
     }
